@@ -226,20 +226,24 @@ DOC_ROWS = [
 ]
 
 
-def doc_model(rows_by_key, base_urls, href_target, invs, doms, types):
+def doc_model(rows_by_key, base_urls, href_target, invs, doms, types, sphinx_order=False):
     """Expected (matches in inventory order)."""
     out = []
     for key, rows in rows_by_key.items():
         if not ref_match(key, invs):
             continue
-        # native structure groups by domain then type in first-appearance order
+        # the native structure groups by domain then type in first-appearance order, Sphinx' in-memory one by 'domain:type'
         grouped: dict = {}
         for n, dt, _p, loc, disp in rows:
             d, t = dt.split(":", 1)
             if loc.endswith("$"):
                 loc = loc[:-1] + n
-            grouped.setdefault(d, {}).setdefault(t, {})[n] = (loc, None if disp == "-" else disp)
+            if sphinx_order:
+                grouped.setdefault(dt, {}).setdefault(t, {})[n] = (loc, None if disp == "-" else disp)
+            else:
+                grouped.setdefault(d, {}).setdefault(t, {})[n] = (loc, None if disp == "-" else disp)
         for d, dd in grouped.items():
+            d = d.split(":", 1)[0]
             if not ref_match(d, doms):
                 continue
             for t, td in dd.items():
@@ -297,14 +301,41 @@ def eval_doc(ctx, case):
             else:
                 md = f"<{href}>" if lk["auto"] else f"[](<{esc}>)"
             lines += [f"mk{i} {md} end{i}", ""]
-            expect.append(doc_model(rows_by_key, base_urls, lk["target"], lk["inv"] or None, lk["dom"] or None, lk["type"] or None))
+            expect.append(doc_model(rows_by_key, base_urls, lk["target"], lk["inv"] or None, lk["dom"] or None, lk["type"] or None, sphinx_order=case.get("front_end") == "sphinx"))
         text = "\n".join(lines)
-        try:
-            dt, w = drive.parse(text, myst_inventories=cfg)
-        except Exception as e:  # noqa: BLE001
-            ctx.violation("doc-raises:" + type(e).__name__, f"inv: link document raised {e!r}", case, core.exc_signature(e))
-            return
-        recs = drive.split_warnings(w)
+        shift = 0
+        if case.get("front_end") == "sphinx":
+            # the same links through the Sphinx front end: inventories come from intersphinx; ref_domains (about '#target' fallbacks only) must not matter
+            conf = {"extensions": ["myst_parser", "sphinx.ext.intersphinx"], "intersphinx_mapping": {k: (v[0], v[1]) for k, v in cfg.items()}}
+            rd = case.get("ref_domains")
+            if rd is not None and case.get("ref_domains_via") == "front":
+                head = "---\nmyst:\n  ref_domains: [" + ", ".join(rd) + "]\n---\n\n"
+                text, shift = head + text, head.count("\n")
+            elif rd is not None:
+                conf["myst_ref_domains"] = rd
+            b = drive.SphinxBuild({"index.md": text}, conf={k: v for k, v in conf.items() if k != "extensions"}, confpy_extra="extensions = ['myst_parser', 'sphinx.ext.intersphinx']")
+            try:
+                try:
+                    b.build()
+                    dt = b.doctree("index")
+                    # the order of the inventories themselves is Sphinx' (intersphinx sorts them by name): take it from Sphinx' own data
+                    order = [k for k in b.app.env.intersphinx_named_inventory if k in rows_by_key]
+                    rows_by_key = {k: rows_by_key[k] for k in order}
+                    expect = [doc_model(rows_by_key, base_urls, lk["target"], lk["inv"] or None, lk["dom"] or None, lk["type"] or None, sphinx_order=True) for lk in case["links"]]
+                except Exception as e:  # noqa: BLE001
+                    ctx.violation("doc-raises:sphinx:" + type(e).__name__, f"inv: link document raised {e!r} in a Sphinx build", case, core.exc_signature(e))
+                    return
+                recs = [{"line": (r["line"] or 0) - shift, "msg": r["msg"]} for r in b.stream_records()]
+                ctx.count("doc_sphinx_builds")
+            finally:
+                b.close()
+        else:
+            try:
+                dt, w = drive.parse(text, myst_inventories=cfg)
+            except Exception as e:  # noqa: BLE001
+                ctx.violation("doc-raises:" + type(e).__name__, f"inv: link document raised {e!r}", case, core.exc_signature(e))
+                return
+            recs = drive.split_warnings(w)
         paras = [p for p in dt.findall(nodes.paragraph) if p.astext().startswith("mk")]
         by_mk = {p.astext().split(" ")[0].split("\n")[0]: p for p in paras}
         for i, (lk, exp) in enumerate(zip(case["links"], expect)):
@@ -516,6 +547,10 @@ def run_shard(ctx):
     n_d = 25 if ctx.tier == "quick" else 600
     for i in range(n_d):
         case = gen_doc(rng)
+        if i % 4 == 1:
+            case["front_end"] = "sphinx"
+            case["ref_domains"] = rng.choice([None, ["std"], ["py"], ["py", "std"], ["c"]])
+            case["ref_domains_via"] = rng.choice(["conf", "front"])
         eval_doc(ctx, case)
         ctx.case(("doc", json.dumps(case, sort_keys=True)))
         if i == 0:
@@ -530,7 +565,7 @@ def run_shard(ctx):
 
 def finalize(m, tier):
     c = m["counters"]
-    need = ["pairs_exhaustive", "random_pairs_matching", "doc_links_resolved", "doc_links_missing", "doc_links_ambiguous"]
+    need = ["pairs_exhaustive", "random_pairs_matching", "doc_links_resolved", "doc_links_missing", "doc_links_ambiguous", "doc_sphinx_builds"]
     for k in need:
         if c.get(k, 0) == 0:
             m["inconclusive"].append(f"monitor never observed '{k}'")
